@@ -215,6 +215,10 @@ func (f *contFam) linOp(w *World, client int, mode string, o ContOp) {
 			out = cOut{V: ints(k)}
 		case "Clear":
 			f.set.Clear()
+		case "Replace":
+			// the whole content replaced in one call (UnmarshalJSON): {A, B}
+			err := f.set.UnmarshalJSON([]byte(fmt.Sprintf("[%d,%d]", o.A, o.B)))
+			out = cOut{Err: err != nil}
 		}
 	}
 	simrt.Yield(-5)
@@ -418,6 +422,13 @@ func setModel() porcupine.Model {
 				return out.V == ints(s), state
 			case "Clear":
 				return true, ""
+			case "Replace":
+				n := []int{in.A}
+				if in.B != in.A {
+					n = append(n, in.B)
+				}
+				sort.Ints(n)
+				return !out.Err, ints(n)
 			}
 			return true, state
 		},
@@ -837,7 +848,7 @@ func GenCont(prop string, seed uint64, thorough bool) *Scenario {
 		}
 	case "set":
 		for i := 0; i < nops; i++ {
-			cs.Ops = append(cs.Ops, ContOp{Task: task(), Op: g.picks("Add", "Delete", "Has", "Len", "Keys", "Add", "Has"), A: g.rng(1, 3)})
+			cs.Ops = append(cs.Ops, ContOp{Task: task(), Op: g.picks("Add", "Delete", "Has", "Len", "Keys", "Add", "Has", "Replace"), A: g.rng(1, 3), B: g.rng(1, 3)})
 		}
 	case "emitter":
 		cs.Ops = append(cs.Ops, ContOp{Task: "t0", Op: "init"})
